@@ -666,7 +666,7 @@ impl TextResource {
     /// Returns a sorted double-ended iterator over all textselections in this resource.
     /// For unsorted (slightly more performant), use [`TextResource::textselections_unsorted()`] instead.
     pub fn iter<'a>(&'a self) -> TextSelectionIter<'a> {
-        self.range(0, self.textlen())
+        self.range(0, self.textlen() + 1) //the range is half-open and a text selection may begin or end at the very end of the text
     }
 
     /// Returns a sorted iterator over all absolute positions (begin aligned cursors) that are in use.
